@@ -95,6 +95,80 @@ var (
 	setETRS       = SetChoice{Spec: grid.Spec{Name: "EuropeanETRS89_LAEAQuad"}, Bases: []int{8, 10}}
 )
 
+// Sets whose corners are not kind to the float -> integer conversion, found by a fixed search at start-up:
+// translated copies of NetherlandsRDNewQuad and small dyadic sets with two-decimal origins, one per class of
+// (x span - nominal span, y span - x span) in integer units; plus sets far from the origin of the CRS, where
+// sums of two ordinates no longer fit in 63 bits although every ordinate does.
+var (
+	zooOnce    sync.Once
+	zooChoices []SetChoice
+	zooClass   = map[string]string{} // Spec.String() -> class
+)
+
+func gridZoo() []SetChoice {
+	zooOnce.Do(func() {
+		rng := fw.NewRng(0x5eed2026)
+		twoDec := func(lim int64) float64 { return float64(rng.Int63n(2*lim*100)-lim*100) / 100 }
+		type kind struct {
+			name  string
+			mk    func() grid.Spec
+			base  grid.Spec
+			bases []int
+		}
+		kinds := []kind{
+			{"rd", func() grid.Spec { return grid.Spec{Name: "NetherlandsRDNewQuad", ShiftX: twoDec(400000), ShiftY: twoDec(400000)} }, grid.Spec{Name: "NetherlandsRDNewQuad"}, []int{9, 10, 11, 12}},
+			{"dyadic", func() grid.Spec { oy := twoDec(9000); return grid.Spec{Depth: 4, Cell: 16, Origin: twoDec(9000), OriginY: &oy} }, dy(4, 16, 0), []int{0, 1, 2}},
+		}
+		for _, k := range kinds {
+			ref, err := getSet(k.base)
+			if err != nil {
+				continue
+			}
+			seen := map[string]bool{}
+			for try := 0; try < 4000 && len(seen) < 12; try++ {
+				sp := k.mk()
+				gs, err := grid.NewSet(sp)
+				if err != nil {
+					continue
+				}
+				dx, dyx := gs.Span-ref.Span, gs.SpanY-gs.Span
+				if dx < -1 || dx > 1 || dyx < -2 || dyx > 2 {
+					continue
+				}
+				cls := fmt.Sprintf("%s:xspan%+d,yspan-xspan%+d", k.name, dx, dyx)
+				if seen[cls] {
+					continue
+				}
+				seen[cls] = true
+				zooClass[sp.String()] = cls
+				zooChoices = append(zooChoices, SetChoice{Spec: sp, Bases: k.bases})
+			}
+		}
+		noy := -3e8
+		for _, sc := range []SetChoice{
+			{Spec: grid.Spec{Depth: 4, Cell: 16, Origin: 6e8}, Bases: []int{0, 1, 2}},
+			{Spec: grid.Spec{Depth: 4, Cell: 16, Origin: -7e8, OriginY: &noy}, Bases: []int{0, 1, 2}},
+			{Spec: grid.Spec{Depth: 14, Cell: 8, Origin: 4.4e8, TileWidth: 256}, Bases: []int{8, 9, 10, 11}}, // sums of two ordinates pass 2^63 in the right/upper part only
+		} {
+			zooClass[sc.Spec.String()] = "far-from-crs-origin"
+			zooChoices = append(zooChoices, sc)
+			if sc.Spec.Depth == 14 { // the set in which only part of the extent is beyond 2^62: more weight
+				zooChoices = append(zooChoices, sc, sc)
+			}
+		}
+	})
+	return zooChoices
+}
+
+// non-power-of-two tile widths (legal for the quadtree validation; the tool takes floor(log2)): only for the properties
+// whose oracle does not need the vector-tile meaning of a pixel
+var tileWidthSets = []SetChoice{
+	{Spec: grid.Spec{Depth: 3, Cell: 16, Origin: 0, TileWidth: 250}, Bases: []int{0, 1}},
+	{Spec: grid.Spec{Depth: 4, Cell: 1, Origin: -50, TileWidth: 100}, Bases: []int{0, 1, 2}},
+	{Spec: grid.Spec{Depth: 2, Cell: 0.5, Origin: 100, TileWidth: 384}, Bases: []int{0}},
+	{Spec: grid.Spec{Depth: 4, Cell: 8, Origin: 0, TileWidth: 3}, Bases: []int{0, 1, 2}},
+}
+
 var defaultSets = []SetChoice{setDyadic2, setDyadic2, setDyadic2, setDyadic4, setDyadicNeg, setDyadic256, setDyadicDeep, setRDdeep, setRDdeep, setRDshallow, setWMdeep, setWMdeep, setWMshallow, setETRS}
 
 // Profile steers the generation of snapping cases for one property.
@@ -107,6 +181,21 @@ type Profile struct {
 	NoBig     bool // never draw the large generator
 	Huge      bool // draw the huge generator (sheet with hundreds of holes) in 1 of 8000 cases
 	MinIDs    int
+	Zoo       bool // 1 case in 6 on a set of gridZoo()
+	TileWidth bool // 1 case in 15 on a set with a tile width that is not a power of two
+}
+
+// countSet records the set of a case and, for zoo sets, its class.
+func countSet(rec *fw.Recorder, sc *SnapCase) {
+	k := sc.TMS.String()
+	rec.Count("set:" + k)
+	gridZoo()
+	if cls, ok := zooClass[k]; ok {
+		rec.Count("grid-class:" + cls)
+	}
+	if sc.TMS.Name == "" && sc.TMS.TileWidth&(sc.TMS.TileWidth-1) != 0 {
+		rec.Count("grid-class:tile-width-not-a-power-of-two")
+	}
 }
 
 var validKinds = []string{"star", "star", "comb", "sliver", "angle", "rectholes", "spiky", "spiky", "grow", "grow", "border", "angle", "moat"}
@@ -115,6 +204,14 @@ var allKinds = []string{"star", "comb", "sliver", "angle", "rectholes", "spiky",
 // genSnapCase draws one case; returns nil (and the reason) when the draw has to be skipped.
 func genSnapCase(rng *fw.Rng, pr *Profile) (*SnapCase, string) {
 	sc := fw.Pick(rng, pr.Sets)
+	if pr.Zoo && rng.Chance(1, 6) {
+		if zoo := gridZoo(); len(zoo) > 0 {
+			sc = fw.Pick(rng, zoo)
+		}
+	}
+	if pr.TileWidth && rng.Chance(1, 15) {
+		sc = fw.Pick(rng, tileWidthSets)
+	}
 	gs, err := getSet(sc.Spec)
 	if err != nil {
 		return nil, "set:" + err.Error()
